@@ -36,7 +36,7 @@ def configs(tier):
     steps = 2000 if quick else 20000
     cfgs = [
         {"name": "sh-only W1", "n_intf": 4, "moves": ["sh"] * 4, "workers": 1, "steps": steps},
-        {"name": "sh,sh,wf,wf cap W2 restart", "n_intf": 4, "moves": ["sh", "sh", "wf", "wf"], "cap": 3.5, "workers": 2, "steps": steps,
+        {"name": "sh,wf,wf,sh cap W2 restart", "n_intf": 4, "moves": ["sh", "wf", "wf", "sh"], "cap": 2.75, "workers": 2, "steps": steps,
          "stops": [steps // 4]},
         # wire fencing in [0+] with a cap below the last interface (high-acceptance zero swaps use capped weights)
         {"name": "sh,wf,sh,sh low cap W1", "n_intf": 4, "moves": ["sh", "wf", "sh", "sh"], "cap": 1.5, "workers": 1, "steps": steps},
@@ -44,8 +44,8 @@ def configs(tier):
     if not quick:
         cfgs += [
             {"name": "sh,sh,wf,sh nocap W3", "n_intf": 4, "moves": ["sh", "sh", "wf", "sh"], "workers": 3, "steps": steps, "stops": [steps // 3, steps // 5]},
-            {"name": "sh,sh,wf W1 cap low", "n_intf": 3, "moves": ["sh", "sh", "wf"], "cap": 2.25, "workers": 1, "steps": steps},
-            {"name": "wf everywhere allowed W2", "n_intf": 5, "moves": ["sh", "sh", "wf", "wf", "wf"], "cap": 4.5, "workers": 2, "steps": steps, "n_jumps": 3},
+            {"name": "sh,wf,sh W1 cap low", "n_intf": 3, "moves": ["sh", "wf", "sh"], "cap": 1.75, "workers": 1, "steps": steps},
+            {"name": "wf everywhere allowed W2", "n_intf": 5, "moves": ["sh", "wf", "wf", "wf", "sh"], "cap": 3.75, "workers": 2, "steps": steps, "n_jumps": 3},
             {"name": "sh-only W3 restarts", "n_intf": 5, "moves": ["sh"] * 5, "workers": 3, "steps": steps, "stops": [steps // 2]},
             # very frequent restarts (every 5 completed steps): reloaded paths must be sampled like any other
             {"name": "sh-only W1 restart every 5", "n_intf": 4, "moves": ["sh"] * 4, "workers": 1, "steps": 3000, "stops": [5] * 599},
